@@ -1277,8 +1277,9 @@ def reads_never_empty(run, fns, rule='R11', inst='read-size-nonzero'):
 # address::to_v4() / to_v6() throw bad_address_cast for the other family
 # one cast is accepted on the author's stated belief instead of a test (one named site, with the reason):
 ADDRESS_CAST_BELIEFS = {
-    ('sim::socks_connection::format_response', 'addr', 'to_v4', '(m_version == 5)', False):
-        'SOCKS4 replies: version 4 requests carry an IPv4 target only, so every endpoint a version-4 reply reports (the local endpoint of the v4 origin/bind socket, or address_v4()) is IPv4 - asserted by the author at the site',
+    # (function, address expression, cast): (member, value under which the site must be UNREACHABLE, reason)
+    ('sim::socks_connection::format_response', 'addr', 'to_v4'): ('m_version', 5,
+        'SOCKS4 replies: version 4 requests carry an IPv4 target only, so every endpoint a version-4 reply reports (the local endpoint of the v4 origin/bind socket, or address_v4()) is IPv4 - asserted by the author at the site'),
 }
 
 
@@ -1311,10 +1312,14 @@ def address_casts_guarded(run, fns, rule='R4', inst='address-cast-guarded'):
                         if (m == want and eff) or (m == other and not eff):
                             ok = True
             if not ok:
-                for (fn_, obj_, cast_, gtxt, gpol), why in ADDRESS_CAST_BELIEFS.items():
-                    if g.norm == fn_ and obj == obj_ and nm.endswith(cast_) and any(q.render(g, q.strip_casts(at)).replace('this->', '') == gtxt and pol == gpol for at, pol in q.guards_at(g, c)):
-                        run.ok(rule, inst, '%s: %s.%s()' % (g.norm, obj[:40], nm.split('::')[-1]), g.loc(c), 'tabled belief: ' + why, nontrivial=False)
-                        ok = None
+                for (fn_, obj_, cast_), (member, value, why) in ADDRESS_CAST_BELIEFS.items():
+                    if g.norm == fn_ and obj == obj_ and nm.endswith(cast_):
+                        # the belief covers the site only where the version-5 path cannot reach it (decided by value, whichever
+                        # way the branch is written)
+                        leaf = lambda atom, member=member, value=value: q.const_eval(g, atom, lambda t: value if t.replace('this->', '') == member else None)
+                        if not q.reachable_under(g, None, [c], leaf):
+                            run.ok(rule, inst, '%s: %s.%s()' % (g.norm, obj[:40], nm.split('::')[-1]), g.loc(c), 'tabled belief: ' + why, nontrivial=False)
+                            ok = None
                 if ok is None:
                     continue
             run.check(ok, rule, inst, '%s: %s.%s()' % (g.norm, obj[:40], nm.split('::')[-1]), g.loc(c),
